@@ -113,6 +113,7 @@ type Node struct {
 	vector    []byte
 	altShares map[int][]byte
 	altVector []byte
+	held      [][]byte // broadcasts the script holds back until after this round's injections
 	// results
 	Ended  bool
 	SK     crypto.PrivateKey
@@ -269,12 +270,67 @@ func (s *Sim) drawScript(b int) *Script {
 		}
 		return sc
 	}
+	// focused mode (half of the Byzantine dealers): everything honest except a dense mix of the
+	// behaviours that interact around ONE honest victim's share, complaint and answer
+	if s.isDealer(b) && r.IntN(2) == 0 {
+		var honest []int
+		for i := 0; i < s.Sc.N; i++ {
+			isB := false
+			for _, x := range s.Sc.Byz {
+				isB = isB || x == i
+			}
+			if !isB {
+				honest = append(honest, i)
+			}
+		}
+		if len(honest) > 0 {
+			j := honest[r.IntN(len(honest))]
+			for i := 0; i < s.Sc.N; i++ {
+				sc.Share[i] = Behaviour{Act: "pass"}
+			}
+			switch r.IntN(8) {
+			case 0:
+				sc.Share[j] = Behaviour{Act: "subst"}
+			case 1:
+				sc.Share[j] = Behaviour{Act: "drop"}
+			case 2:
+				sc.Share[j] = Behaviour{Act: "delay"}
+			case 3:
+				sc.Share[j] = Behaviour{Act: "dup"}
+			case 4:
+				sc.Share[j] = Behaviour{Act: "pass"}
+			default:
+				sc.Share[j] = Behaviour{Act: "mangle", Arg: shareMangles[r.IntN(len(shareMangles))]}
+			}
+			sc.Vector = Behaviour{Act: "pass"}
+			if x := r.IntN(10); x >= 7 {
+				sc.Vector = Behaviour{Act: []string{"delay", "dup", "subst"}[x-7]}
+			} else if x >= 4 {
+				sc.Vector = Behaviour{Act: "hold"} // vector sent after the round's unsolicited messages
+			}
+			sc.Complaint = Behaviour{Act: "pass"}
+			sc.Answer = []Behaviour{{Act: "pass"}, {Act: "pass"}, {Act: "drop"}, {Act: "delay"}, {Act: "dup"}, {Act: "subst"}, {Act: "mangle", Arg: "share-plus1"}, {Act: "mangle", Arg: answerMangles[r.IntN(len(answerMangles))]}}[r.IntN(8)]
+			if r.IntN(10) < 7 {
+				sc.Inject = append(sc.Inject, Injection{Round: 1 + r.IntN(2), Kind: []string{"early-answer-valid", "early-answer-wrong"}[r.IntN(2)], A: j})
+			}
+			if r.IntN(10) < 3 {
+				sc.Inject = append(sc.Inject, Injection{Round: 2 + r.IntN(2), Kind: "answer-twice", A: j})
+			}
+			if r.IntN(10) < 2 {
+				sc.Inject = append(sc.Inject, Injection{Round: 1 + r.IntN(3), Kind: injectKinds[r.IntN(len(injectKinds))], A: r.IntN(s.Sc.N), B: r.IntN(s.Sc.N)})
+			}
+			return sc
+		}
+	}
 	// a puppet is mostly honest with a few deviations, so that deep protocol states are reached
 	pPass := []int{30, 55, 75, 90}[r.IntN(4)]
 	for i := 0; i < s.Sc.N; i++ {
 		sc.Share[i] = pickBehaviour(r, shareMangles, pPass)
 	}
 	sc.Vector = pickBehaviour(r, vectorMangles, 60)
+	if r.IntN(8) == 0 {
+		sc.Vector = Behaviour{Act: "hold"}
+	}
 	sc.Complaint = pickBehaviour(r, complaintMangles, 60)
 	sc.Answer = pickBehaviour(r, answerMangles, 50)
 	for k := r.IntN(4); k > 0; k-- {
@@ -539,6 +595,14 @@ func (s *Sim) emit(from, dest int, bcast bool, data []byte) {
 		s.ev("byz-drop", from, dest, data, label)
 		s.Features["byz."+label]++
 		return
+	case "hold":
+		// a Byzantine sender may order its own broadcasts as it likes: this one is sent after the
+		// unsolicited messages of the round (e.g. an answer, then the vector)
+		if bcast {
+			n.held = append(n.held, append([]byte{}, data...))
+			s.Features["byz.hold"]++
+			return
+		}
 	case "delay":
 		rd++
 		if rd > s.minRd[from] {
@@ -697,6 +761,17 @@ func (s *Sim) inject() {
 	}
 }
 
+// flushHeld sends the broadcasts a puppet held back (same round, after its injections).
+func (s *Sim) flushHeld() {
+	for _, b := range s.Sc.Byz {
+		n := s.Nodes[b]
+		for _, d := range n.held {
+			s.pushBroadcast(b, d, s.round, true, "hold")
+		}
+		n.held = nil
+	}
+}
+
 // ---- delivery --------------------------------------------------------------------------
 
 func (s *Sim) safeCall(n *Node, what string, f func() error) {
@@ -786,6 +861,7 @@ func (s *Sim) Run() {
 		s.safeCall(n, "Start", func() error { return n.inst.Start(seed) })
 	}
 	s.inject()
+	s.flushHeld()
 	s.deliverRound()
 	for k := 2; k <= 3; k++ {
 		s.round, s.phase = k, "timeout"
@@ -794,6 +870,7 @@ func (s *Sim) Run() {
 			s.safeCall(n, "NextTimeout", func() error { return n.inst.NextTimeout() })
 		}
 		s.inject()
+		s.flushHeld()
 		s.deliverRound()
 	}
 	s.round, s.phase = 4, "end"
